@@ -291,6 +291,12 @@ def generate(tier, seed):
     u2 = G.universe("ACD", 2)
     for k in (1, 2, 3):
         yield "lookupdb", {"refs": u2, "queries": u2, "k": k}, True
+    # every stored sequence and every query of one single length: pairs that need an insertion plus a deletion (shifts)
+    same3 = G.universe("AC", 3, 3)
+    for k in (2, 3):
+        yield "lookupdb", {"refs": same3, "queries": same3, "k": k}, True
+        yield "cross", {"refs": same3, "queries": same3, "k": k}, True
+    yield "lookupdb", {"refs": ["CASLGFF", "CASSLGF", "CAWLGFF"], "queries": ["CASSLGF", "CASLGFF", "ASLGFFC"], "k": 2}, True
     if thorough:
         u = G.universe("AC", 6)
         for k in range(1, 5):
